@@ -255,6 +255,9 @@ func explore(ld *loaded, u *Unit, tc *TierCfg, seed int64, smtlog string) *UnitR
 					}
 				}
 				mu.Lock()
+				if os.Getenv("GSE_DEBUG_PATHS") != "" {
+					fmt.Printf("PATH taken=%v gates=%v reached=%v aborted=%q viol=%d\n", e.taken, e.gates, e.reachedNow, aborted, len(e.Viol))
+				}
 				res.Paths++
 				res.Steps += e.steps
 				res.Decisions += len(e.taken) - len(prefix)
